@@ -1,5 +1,5 @@
-(* C05 — composite LTS, part 6: the only way a live job is lost is the late exit of a
-   closed worker (no_lost_job, _partial under the hypothesis that excludes it). *)
+(* C05 — composite LTS, part 6: no live job is ever lost, for every schedule (true since
+   clearAllPeerDials keeps the jobs whose context is not done). *)
 From Coq Require Import List ZArith Bool Lia Permutation.
 From Verif Require Import c05.ModelLimiter c05.Proofs_Limiter c05.SpecLimiter c05.Proofs_LimiterMon.
 From Verif Require Import c05.ModelWorker c05.Proofs_Worker c05.Proofs_WorkerMon c05.Proofs_WorkerFly.
@@ -25,7 +25,6 @@ Qed.
 (* one limiter step keeps a live job in its place, unless the step is the one that takes it out *)
 Lemma lstep_place : forall l o x, Inv l -> is_cancelled (lstep l o) x = false -> Place l x ->
   match o with
-  | LClear p => ~ In x (wl_get p (waitingOnPeer l))
   | LReturn id => jid x <> id
   | _ => True
   end -> Place (lstep l o) x.
@@ -34,8 +33,9 @@ Proof.
   - destruct P as [P|P]; [left; apply (stim_inq l (SAdd j)); auto | right; cbn [lstep]; rewrite add_job_dialing; exact P].
   - exact P.
   - destruct P as [P|P]; [|right; exact P]. left. destruct P as [[q H]|[H|H]]; [|right; left; exact H | right; right; exact H].
-    left. exists q. cbn [lstep]. unfold clear_peer. prj. rewrite wl_get_adel.
-    destruct (p =? q) eqn:E; [apply Z.eqb_eq in E; subst; contradiction | exact H].
+    left. exists q. cbn [lstep]. unfold clear_peer. prj. rewrite wl_get_set.
+    destruct (p =? q) eqn:E; [|exact H]. apply Z.eqb_eq in E. subst q.
+    apply filter_In. split; [exact H|]. apply negb_true_iff. exact Hl.
   - assert (Hc : is_cancelled l x = false).
     { rewrite <- Hl. symmetry. apply is_cancelled_eq. rewrite lstep_cancG. reflexivity. }
     destruct P as [P|P]; apply (begin_place l id x I Hc); [left | right]; exact P.
@@ -50,24 +50,11 @@ Definition live_in (l : lim) (x : job) : Prop := ~ In (jgrp x) (cancelledG l).
 Lemma live_not_cancelled : forall l x, ~ In (jgrp x) (cancelledG l) -> is_cancelled l x = false.
 Proof. intros l x H. apply is_cancelled_false, H. Qed.
 
-(* the schedules that exclude the defect: a closed worker returns only when no live job
-   waits on its peer's limit (e.g. before any newer active dial has queued one) *)
-Definition safe (s : cst) (l : clabel) : Prop :=
-  match l with
-  | CExit g => forall x, In x (wl_get (aget 0 g (c_gpeer s)) (waitingOnPeer (c_lim s))) ->
-                         is_cancelled (c_lim s) x = true
-  | _ => True
-  end.
-
-Fixpoint safe_run (s : cst) (ls : list clabel) : Prop :=
-  match ls with [] => True | l :: r => safe s l /\ safe_run (cstep s l) r end.
-
 (* NLJ through a state change that applies one limiter step and leaves the job table alone *)
 Lemma nlj_limop : forall s o, Inv (c_lim s) -> NLJ s ->
   (forall n j x, jget n s = Some j -> jr_reported j = false -> jid x = n -> jgrp x = jr_gen j ->
        ~ In (jr_gen j) (cancelledG (lstep (c_lim s) o)) ->
        match o with
-       | LClear p => ~ In x (wl_get p (waitingOnPeer (c_lim s)))
        | LReturn id => jid x <> id
        | _ => True end) ->
   NLJ (lim_do s o).
@@ -133,9 +120,9 @@ Proof.
   apply (nlj_eq s3); [exact N3 | reflexivity | reflexivity].
 Qed.
 
-Lemma cstep_nlj : forall s l, Inv (c_lim s) -> JIds s -> NLJ s -> safe s l -> NLJ (cstep s l).
+Lemma cstep_nlj : forall s l, Inv (c_lim s) -> JIds s -> NLJ s -> NLJ (cstep s l).
 Proof.
-  intros s l I Hid N Hs. destruct l; cbn [cstep].
+  intros s l I Hid N. destruct l; cbn [cstep].
   - destruct (cget c s); [exact N|]. destruct best.
     + all: try exact N; try (apply (nlj_eq s); [exact N | reflexivity | reflexivity]).
     + destruct (p_active _); cprj.
@@ -163,22 +150,21 @@ Proof.
       destruct (cr_canc r); [apply nlj_do_leave; auto | exact N].
   - destruct (memz g (c_stale s)); [|exact N].
     assert (X : NLJ (lim_do s (LClear (aget 0 g (c_gpeer s))))).
-    { apply nlj_limop; auto. intros n j x H1 H2 H3 H4 H5 Hin. cbn [safe] in Hs. apply Hs in Hin.
-      rewrite lstep_cancG in H5. rewrite <- H4 in H5. apply live_not_cancelled in H5. congruence. }
+    { apply nlj_limop; auto. }
     apply (nlj_eq (lim_do s (LClear (aget 0 g (c_gpeer s))))); [exact X | reflexivity | reflexivity].
 Qed.
 
 Lemma winv_jids : forall s, WInv s -> JIds s.
 Proof. intros s W n j H. destruct (w_ids s W n j H). assumption. Qed.
 
-Lemma no_lost_job_partial_l : forall fdl ppl fd ls, 0 <= fdl -> 0 <= ppl -> Forall wf_label ls ->
-  safe_run (init_c fdl ppl fd) ls -> NLJ (reach fdl ppl fd ls).
+Lemma no_lost_job_l : forall fdl ppl fd ls, 0 <= fdl -> 0 <= ppl -> Forall wf_label ls ->
+  NLJ (reach fdl ppl fd ls).
 Proof.
   intros fdl ppl fd ls H1 H2. unfold reach.
-  assert (G : forall ls s, CInv fdl ppl s -> NLJ s -> Forall wf_label ls -> safe_run s ls -> NLJ (crun s ls)).
-  { induction ls0 as [|l r IH]; intros s C N F S; cbn [crun fold_left]; [exact N|].
-    inversion F; subst. destruct S as [S1 S2]. apply IH; auto.
+  assert (G : forall ls s, CInv fdl ppl s -> NLJ s -> Forall wf_label ls -> NLJ (crun s ls)).
+  { induction ls0 as [|l r IH]; intros s C N F; cbn [crun fold_left]; [exact N|].
+    inversion F; subst. apply IH; auto.
     - apply cstep_cinv; auto.
     - destruct C as [[[I _ _] _] _ _ W _]. apply cstep_nlj; auto. apply (winv_jids s W). }
-  intros F S. apply G; auto; [apply init_cinv; assumption|]. intros n j H. discriminate.
+  intros F. apply G; auto; [apply init_cinv; assumption|]. intros n j H. discriminate.
 Qed.
